@@ -8,6 +8,7 @@ import (
 	"os"
 	"sync"
 
+	"verif/internal/ev"
 	"verif/stdgen"
 	"verif/stdh"
 )
@@ -26,6 +27,54 @@ type Opts struct {
 	Seed      uint64      `json:"seed,omitempty"`
 	Alarm     int         `json:"alarm,omitempty"`
 	MaxCalls  uint32      `json:"max_calls,omitempty"`
+	// NoExcluders turns the known-finding excluders off (only the committed
+	// reproducers of known findings set it).
+	NoExcluders bool `json:"no_excluders,omitempty"`
+
+	xzFilterChain bool // set by Request: the payload is an xz stream whose first block has more than one filter
+}
+
+// xzHasFilterChain reports whether an xz payload's first block header declares
+// more than one filter (a BCJ or delta filter in front of LZMA2).
+func xzHasFilterChain(p []byte) bool {
+	return len(p) > 13 && p[0] == 0xFD && p[1] == '7' && p[2] == 'z' && p[13]&3 != 0
+}
+
+// LZMAFamily lists the kinds affected by known findings S1-S3: std/lzma (also
+// reached through std/lzip and std/xz) manages its LZ history correctly only
+// under the discipline upstream's own drivers follow - the destination is
+// compacted to dst_history_retain_length after EVERY suspension and the work
+// buffer is sized generously in advance:
+//   S1 output kept in dst across a $short read while older history was dropped
+//      => distances resolved wrongly ("#lzma: bad distance" on a valid stream);
+//   S2 xz learns the history size from a block header parsed in the same call
+//      that then suspends => "#base: bad workbuf length" although the buffer had
+//      the size workbuf_len() reported before the call;
+//   S3 xz streams with a BCJ filter in front of LZMA2 (seen with the ARM64
+//      filter and the ARM filter with a start offset) fail with "#lzma: bad
+//      distance" when the source arrives in small pieces (1..7 bytes), whatever
+//      the destination discipline; with pieces >= 100 bytes they decode fine.
+var LZMAFamily = map[string]bool{"lzma": true, "lzip": true, "xz": true}
+
+// Discipline reports whether the excluder for S1-S3 rewrites the plan of this
+// run, and returns the plan actually used.
+func Discipline(k stdh.Kind, plan stdgen.Plan, o Opts) (stdgen.Plan, bool) {
+	if o.NoExcluders || !LZMAFamily[k.Pkg()] || plan.Trivial() {
+		return plan, false
+	}
+	if o.xzFilterChain {
+		plan.SrcMode, plan.SrcChunk, plan.SrcList = 0, 0, nil // S3: the source is not split for BCJ filter chains
+	}
+	if plan.DstMode != 2 {
+		plan.DstMode = 2
+		if plan.DstStep < 1<<16 {
+			plan.DstStep = 1 << 16
+		}
+	}
+	if plan.WorkMode == 0 || plan.WorkMode == 1 {
+		plan.WorkMode = 4
+	}
+	return plan, true
 }
 
 // Env holds the harness processes of this test process.
@@ -120,8 +169,10 @@ func Request(k stdh.Kind, payload []byte, plan stdgen.Plan, o Opts) []byte {
 	for _, q := range o.Quirks {
 		r.Quirk(uint32(q[0]), q[1])
 	}
+	o.xzFilterChain = k.Pkg() == "xz" && xzHasFilterChain(payload)
+	plan, disciplined := Discipline(k, plan, o)
 	r.Src(plan.SrcMode, plan.SrcChunk, plan.Closed, plan.SrcExact, plan.SrcList)
-	r.Dst(plan.DstMode, 1<<22, plan.DstStep, plan.DstFill)
+	r.Dst(plan.DstMode, 1<<22, plan.DstStep, plan.DstFill, disciplined)
 	r.Work(plan.WorkMode, plan.WorkFill)
 	if k.Iface == stdh.IMG {
 		r.Pix(o.PixFmt, o.Blend, o.PixFill, o.MaxPixels, o.Dump)
@@ -153,6 +204,13 @@ func (e *Env) Exec(variant string, req []byte) (*stdh.Resp, error) {
 // Run executes the canonical request. A harness time-out is re-run once with
 // a three times longer alarm before it is reported (slow != non-terminating).
 func (e *Env) Run(variant string, k stdh.Kind, payload []byte, plan stdgen.Plan, o Opts) (*stdh.Resp, error) {
+	o.xzFilterChain = k.Pkg() == "xz" && xzHasFilterChain(payload)
+	if _, d := Discipline(k, plan, o); d {
+		ev.Excluded("S1-S3-lzma-family-driver-discipline")
+		if o.xzFilterChain && plan.SrcMode != 0 {
+			ev.Excluded("S3-xz-filter-chain-source-not-split")
+		}
+	}
 	resp, err := e.Exec(variant, Request(k, payload, plan, o))
 	if ce, ok := stdh.IsCrash(err); ok && ce.Timeout {
 		o2 := o
